@@ -146,4 +146,24 @@ example : ((demoMem.loadFiltered demoStore.clear ["alice"] []).2.1.getPolicy "p"
 example : (demoMem.loadFiltered demoStore.clear ["alice"] []).1.filtered = true := by decide
 example : (demoMem.loadFiltered demoStore.clear ["", "d2"] ["alice"]).2.1.getPolicy "g" "g" = [["alice", "admin"]] := by decide
 
+
+/-- **a `clear_policy` the adapter fails leaves the guard in place**: with auto-save on, when the adapter's clear
+fails (error, refusal, or a failure part-way), the enforcer keeps its rules and the adapter keeps its `is_filtered`
+flag — so a filtered enforcer still cannot save (`filtered_cannot_save`) -/
+theorem failed_clear_keeps_guard (e : Enforcer) (hs : e.autoSave = true) (f : Fault) (rest : List Fault)
+    (hp : e.adapter.plan = f :: rest) (hf : f ≠ .pass) :
+    e.clearPolicy.1.store = e.store ∧ e.clearPolicy.1.adapter.filtered = e.adapter.filtered ∧
+    e.clearPolicy.2 = .err .adapter := by
+  have hc : e.adapter.clear = ({ e.adapter with plan := rest }, none) := by
+    unfold AdapterSt.clear AdapterSt.nextFault
+    rw [hp]
+    cases f with
+    | pass => exact absurd rfl hf
+    | err => rfl
+    | refuse => rfl
+    | failAfter k => rfl
+  unfold Enforcer.clearPolicy
+  simp only [hs, if_true, hc]
+  simp
+
 end Casbin.C12
